@@ -281,6 +281,43 @@ def c10_cases(rng, thorough):
 GEN = {"C07": c07_cases, "C08": c08_cases, "C09": c09_cases, "C10": c10_cases}
 
 
+def cbmc_pad(rep, thorough):
+    """CBMC on the REAL Avtp_Vss_Pad: per message length, for ALL prior buffer contents, C09 as
+    stated (harness/cbmc/vsspad_all_inputs.c), both host byte orders."""
+    import os
+    import re
+    R = common.REPO
+    harness = os.path.join(common.VERIF, "harness", "cbmc", "vsspad_all_inputs.c")
+    lib = [os.path.join(R, "src", "avtp", "acf", "custom", "Vss.c"), os.path.join(R, "src", "avtp", "Utils.c")]
+    hs = lib + [harness, os.path.join(R, "include", "avtp", "acf", "custom", "Vss.h"), os.path.join(R, "include", "avtp", "Byteorder.h"),
+                os.path.join(R, "include", "avtp", "Defines.h")]
+    lengths = list(range(12, 2045)) if thorough else sorted(set(list(range(12, 81)) + list(range(250, 262)) + list(range(1018, 1031)) + list(range(2038, 2045))))
+    jobs = [[n, e] for n in lengths for e in ("little", "big")]
+
+    def cmd(job):
+        n, e = job
+        c = ["cbmc", "-DLEN=%d" % n, "-I", os.path.join(R, "include"), harness] + lib + \
+            ["--unwind", str(n + 60), "--unwinding-assertions", "--no-standard-checks", "--object-bits", "8"]
+        return c + (["--big-endian", "-D__BYTE_ORDER__=__ORDER_BIG_ENDIAN__"] if e == "big" else [])
+    results = common.cbmc_sweep("vsspad", hs, jobs, cmd, "C09", "t" if thorough else "q")
+    n_ok = 0
+    for (n, e), verdict, failed, trace in results:
+        if verdict == "ok":
+            n_ok += 1
+            continue
+        d = {}
+        for m in re.finditer(r"^\s*buf\[(\d+)l?\]=(\d+)", trace, re.M):
+            d.setdefault(int(m.group(1)), int(m.group(2)))
+        total = 4 + n + (4 - n % 4) % 4 + 8
+        pdu = bytes(d.get(j, 0xff) for j in range(4, total))
+        rep.violation("Vss:pad:all-inputs:%s:len%%4=%d" % (e, n % 4),
+                      {"kind": "real-code-violates-the-statement", "length": n, "host_byte_order": e, "failed_assertions": failed,
+                       "ops": ["buf a " + pdu.hex(), "vss_pad a 0 %d" % n, "dump a"],
+                       "note": "from CBMC's trace on the real Avtp_Vss_Pad (bytes not shown in the trace excerpt are 0xff)"})
+    rep.cov["cbmc_all_inputs"] = {"lengths": len(lengths), "byte_orders": 2, "verified": n_ok, "runs": len(results),
+                                  "statement": "for all prior buffer contents: C09 (harness/cbmc/vsspad_all_inputs.c)"}
+
+
 def check(rep, prop, tier, seed):
     rng = common.rng_for(prop, seed)
     thorough = tier == "thorough"
@@ -354,6 +391,8 @@ def check(rep, prop, tier, seed):
             rep.violation(key, {"kind": "model-differs-from-reference-encoding", "case": t, "ops": [o[:400] for o in cs.cases[i]],
                                 "model": [x[:400] for x in got], "reference": [x[:400] for x in exp]})
             diff_groups.setdefault("Vss", []).append(i)
+    if prop == "C09":
+        cbmc_pad(rep, thorough)
     pipeline.report_proof_failures(rep, prop, res, diff_groups)
     cells = {(t["what"], t.get("mode"), t.get("code"), t["class"], t["len"] if prop in ("C09",) else None) for t in cs.tags}
     rep.cov.update(evaluations=len(cs.cases), distinct_nontrivial=len(cells), reference_checked=nref,
